@@ -47,6 +47,21 @@ type Contract struct {
 	Text     []string // raw lines (hash for the ledger)
 	Cover    bool
 	NoFrame  bool
+	BVNames  []string
+	Lets     []LetClause
+	Uses     []Clause
+	LoopUses map[string][]Clause
+}
+
+// LetClause: `let NAME = arg(CALLEE, occurrence, index)` or `ret(CALLEE, occurrence, index)` binds a
+// ghost name to a value flowing through a call made by the function.
+type LetClause struct {
+	Name   string
+	Kind   string
+	Callee string
+	Occ    int
+	Idx    int
+	Where  string
 }
 
 type SpecParam struct {
@@ -62,6 +77,7 @@ type SpecFn struct {
 	Body    ast.Expr
 	Rec     bool       // recursive: SMT define-fun-rec / axiomatised
 	Decl    bool       // declared only (uninterpreted), axioms elsewhere
+	Fun     bool       // non-recursive SMT define-fun (not expanded by govc)
 	Where   string
 	Text    string
 }
@@ -78,6 +94,7 @@ type Lemma struct {
 	Text     []string
 	Axiom    bool // assumed, listed in the trusted base
 	Induct   string
+	Uses     []Clause
 }
 
 type Universe struct {
@@ -167,7 +184,8 @@ func (u *Universe) loadDeps(dir string) error {
 }
 
 var clauseWords = map[string]bool{"requires": true, "ensures": true, "modifies": true, "panics": true,
-	"loop": true, "repr": true, "inline": true, "props": true, "opaque": true, "unroll": true, "note": true, "induct": true, "cover": true}
+	"loop": true, "repr": true, "inline": true, "props": true, "opaque": true, "unroll": true, "note": true, "induct": true, "cover": true,
+	"bv": true, "let": true, "use": true, "noframe": true}
 
 func (u *Universe) parseContractFile(path, pkgPath string, deps bool) error {
 	data, err := os.ReadFile(path)
@@ -210,6 +228,10 @@ func (u *Universe) parseContractFile(path, pkgPath string, deps bool) error {
 					curC.LoopDec[p.loop] = cl
 				case "loopmod":
 					curC.LoopMod[p.loop] = append(curC.LoopMod[p.loop], cl)
+				case "use":
+					curC.Uses = append(curC.Uses, cl)
+				case "loopuse":
+					curC.LoopUses[p.loop] = append(curC.LoopUses[p.loop], cl)
 				}
 			case curL != nil:
 				switch p.kind {
@@ -217,6 +239,8 @@ func (u *Universe) parseContractFile(path, pkgPath string, deps bool) error {
 					curL.Requires = append(curL.Requires, cl)
 				case "ensures":
 					curL.Ensures = append(curL.Ensures, cl)
+				case "use":
+					curL.Uses = append(curL.Uses, cl)
 				}
 			}
 		}
@@ -297,7 +321,7 @@ func (u *Universe) parseContractFile(path, pkgPath string, deps bool) error {
 				return fmt.Errorf("%s: %v", where, err)
 			}
 			c := &Contract{PkgPath: pkgPath, Header: fd, Assumed: assumed, LoopInv: map[string][]Clause{},
-				LoopDec: map[string]Clause{}, LoopMod: map[string][]Clause{}, Props: defaultProps, Where: where, Unroll: map[string]bool{}}
+				LoopDec: map[string]Clause{}, LoopMod: map[string][]Clause{}, Props: defaultProps, Where: where, Unroll: map[string]bool{}, LoopUses: map[string][]Clause{}}
 			c.Text = []string{t}
 			c.Key = fd.Name.Name
 			if fd.Recv != nil && len(fd.Recv.List) > 0 {
@@ -336,7 +360,7 @@ func (u *Universe) parseContractFile(path, pkgPath string, deps bool) error {
 			u.Contracts[pkgPath+"."+c.Key] = c
 			curC = c
 			continue
-		case "spec", "rec", "decl":
+		case "spec", "rec", "decl", "fun":
 			if err := flush(); err != nil {
 				return err
 			}
@@ -427,6 +451,10 @@ func (u *Universe) parseContractFile(path, pkgPath string, deps bool) error {
 			case "unroll":
 				curC.Unroll[id] = true
 				lastClause = nil
+			case "use":
+				s := body
+				pend = append(pend, pending{kind: "loopuse", loop: id, text: &s, line: where})
+				lastClause = pend[len(pend)-1].text
 			default:
 				return fmt.Errorf("%s: bad loop clause kind %q", where, kind)
 			}
@@ -439,6 +467,42 @@ func (u *Universe) parseContractFile(path, pkgPath string, deps bool) error {
 			lastClause = nil
 		case "inline":
 			curC.Inline = true
+			lastClause = nil
+		case "noframe":
+			curC.NoFrame = true
+			lastClause = nil
+		case "bv":
+			curC.BVNames = append(curC.BVNames, strings.Fields(rest)...)
+			lastClause = nil
+		case "use":
+			s := rest
+			pend = append(pend, pending{kind: "use", text: &s, line: where})
+			lastClause = pend[len(pend)-1].text
+		case "let":
+			// let NAME = arg(CALLEE, occ, idx)
+			var lc LetClause
+			eq := strings.Index(rest, "=")
+			if eq < 0 {
+				return fmt.Errorf("%s: bad let clause", where)
+			}
+			lc.Name = strings.TrimSpace(rest[:eq])
+			rhs := strings.TrimSpace(rest[eq+1:])
+			op := strings.Index(rhs, "(")
+			if op < 0 || !strings.HasSuffix(rhs, ")") {
+				return fmt.Errorf("%s: bad let clause", where)
+			}
+			lc.Kind = rhs[:op]
+			parts := strings.Split(rhs[op+1:len(rhs)-1], ",")
+			if len(parts) < 2 {
+				return fmt.Errorf("%s: bad let clause", where)
+			}
+			lc.Callee = strings.TrimSpace(parts[0])
+			fmt.Sscan(strings.TrimSpace(parts[1]), &lc.Occ)
+			if len(parts) > 2 {
+				fmt.Sscan(strings.TrimSpace(parts[2]), &lc.Idx)
+			}
+			lc.Where = where
+			curC.Lets = append(curC.Lets, lc)
 			lastClause = nil
 		case "cover":
 			curC.Cover = true
@@ -505,7 +569,7 @@ func parseSpecFn(s string, word string) (*SpecFn, error) {
 	if err != nil {
 		return nil, err
 	}
-	sf := &SpecFn{Name: fd.Name.Name, Rec: word == "rec", Decl: word == "decl"}
+	sf := &SpecFn{Name: fd.Name.Name, Rec: word == "rec", Decl: word == "decl", Fun: word == "fun"}
 	for _, f := range fd.Type.Params.List {
 		for _, n := range f.Names {
 			sf.Params = append(sf.Params, SpecParam{n.Name, f.Type})
